@@ -59,7 +59,9 @@ struct HGenMeas : public MeasurementModel {
     std::pair<bool, Data> predictedMeasure(const Ref<const MatrixXd>& cur) const override {
         ++calls_;
         if (fail_ == 2) return std::make_pair(false, Data());
-        MatrixXd p = (A_ * cur).colwise() + b_; return std::make_pair(true, Data(std::move(p)));
+        MatrixXd p = (A_ * cur).colwise() + b_;
+        if (fail_ == 4) return std::make_pair(false, Data(std::move(p)));   // failed, but a (stale / partial) matrix is handed back
+        return std::make_pair(true, Data(std::move(p)));
     }
     std::pair<bool, Data> innovation(const Data& pred, const Data& meas) const override {
         if (fail_ == 3) return std::make_pair(false, Data());
@@ -80,7 +82,9 @@ struct HAddMeas : public AdditiveMeasurementModel {
     std::pair<bool, Data> measure(const Data&) const override { MatrixXd y = y_; return std::make_pair(fail_ != 1, Data(y)); }
     std::pair<bool, Data> predictedMeasure(const Ref<const MatrixXd>& cur) const override {
         if (fail_ == 2) return std::make_pair(false, Data());
-        MatrixXd p = (A_ * cur).colwise() + b_; return std::make_pair(true, Data(std::move(p)));
+        MatrixXd p = (A_ * cur).colwise() + b_;
+        if (fail_ == 4) return std::make_pair(false, Data(std::move(p)));
+        return std::make_pair(true, Data(std::move(p)));
     }
     std::pair<bool, Data> innovation(const Data& pred, const Data& meas) const override {
         if (fail_ == 3) return std::make_pair(false, Data());
@@ -114,6 +118,7 @@ struct HLtiMeas : public LTIMeasurementModel {
     std::pair<bool, Data> measure(const Data&) const override { MatrixXd y = y_; return std::make_pair(fail_ != 1, Data(y)); }
     std::pair<bool, Data> predictedMeasure(const Ref<const MatrixXd>& cur) const override {
         if (fail_ == 2) return std::make_pair(false, Data());
+        if (fail_ == 4) return std::make_pair(false, LTIMeasurementModel::predictedMeasure(cur).second);
         return LTIMeasurementModel::predictedMeasure(cur);
     }
     std::pair<bool, Data> innovation(const Data& pred, const Data& meas) const override {
@@ -203,7 +208,8 @@ static std::string augns(Toks& t) {
 static std::string ut(Toks& t) {
     std::string mode = t.tok();
     long nx = t.nat(), nz = t.nat(), ny = t.nat(), k = t.nat();
-    double a = t.dbl(), b = t.dbl(), kap = t.dbl(); bool valid = t.flag();
+    double a = t.dbl(), b = t.dbl(), kap = t.dbl(); long vcode = t.nat(); bool valid = (vcode == 1);
+    const int mfail = valid ? 0 : (vcode == 2 ? 4 : 2);
     MatrixXd A = t.mat(ny, nx + nz); VectorXd bv = t.vec(ny);
     GaussianMixture g(k, nx);
     g.mean() = t.mat(nx, k); g.covariance() = t.mat(nx, nx * k);
@@ -221,9 +227,9 @@ static std::string ut(Toks& t) {
         long ncalls = 0;
         sigma_point::FunctionEvaluation f = [&](const Ref<const MatrixXd>& x) -> std::tuple<bool, Data, VectorDescription> {
             ++ncalls;
-            if (!valid) return std::make_tuple(false, Data(), VectorDescription(ny));
+            if (vcode == 0) return std::make_tuple(false, Data(), VectorDescription(ny));
             MatrixXd y = (A * x).colwise() + bv;
-            return std::make_tuple(true, Data(std::move(y)), VectorDescription(ny));
+            return std::make_tuple(valid, Data(std::move(y)), VectorDescription(ny));
         };
         std::tie(flag, res, cross) = sigma_point::unscented_transform(g, w, f);
         calls = ncalls;
@@ -234,11 +240,11 @@ static std::string ut(Toks& t) {
         HAddState m(A, bv, Nadd, out);
         std::tie(res, cross) = sigma_point::unscented_transform(g, w, static_cast<AdditiveStateModel&>(m));
     } else if (mode == "mm") {
-        HGenMeas m(A, bv, Qin, VectorXd::Zero(ny), in, out, valid ? 0 : 2);
+        HGenMeas m(A, bv, Qin, VectorXd::Zero(ny), in, out, mfail);
         std::tie(flag, res, cross) = sigma_point::unscented_transform(g, w, static_cast<MeasurementModel&>(m));
         calls = m.calls_;
     } else if (mode == "amm") {
-        HAddMeas m(A, bv, Nadd, VectorXd::Zero(ny), VectorDescription(nx), out, valid ? 0 : 2);
+        HAddMeas m(A, bv, Nadd, VectorXd::Zero(ny), VectorDescription(nx), out, mfail);
         std::tie(flag, res, cross) = sigma_point::unscented_transform(g, w, static_cast<AdditiveMeasurementModel&>(m));
     } else throw vh::BadArgs("mode");
     Out o; o.s("ok"); o.n(flag ? 1 : 0);
@@ -268,7 +274,7 @@ static Vector4d qmul(const Vector4d& a, const Vector4d& b) {
 // quaternion outputs  p (x) q[perm]  (side 0)  or  q[perm] (x) p  (side 1).
 static std::string utc(Toks& t) {
     long linI = t.nat(), circI = t.nat(); bool quat = t.flag(); long nz = t.nat(), linO = t.nat(), circO = t.nat(), k = t.nat();
-    double a = t.dbl(), b = t.dbl(), kap = t.dbl(); bool valid = t.flag();
+    double a = t.dbl(), b = t.dbl(), kap = t.dbl(); long vcode = t.nat(); bool valid = (vcode == 1);
     MatrixXd A = t.mat(linO, linI + nz); VectorXd bl = t.vec(linO);
     MatrixXd Cl = t.mat(circO, linI); VectorXd sgn = t.vec(circO);
     std::vector<long> perm; for (long i = 0; i < circO; ++i) perm.push_back(t.nat());
@@ -288,7 +294,7 @@ static std::string utc(Toks& t) {
     MatrixXd Ykeep; long ncalls = 0;
     sigma_point::FunctionEvaluation f = [&](const Ref<const MatrixXd>& x) -> std::tuple<bool, Data, VectorDescription> {
         ++ncalls;
-        if (!valid) return std::make_tuple(false, Data(), out);
+        if (vcode == 0) return std::make_tuple(false, Data(), out);
         MatrixXd y(linO + circO * cs, x.cols());
         MatrixXd xin(linI + nz, x.cols());
         xin.topRows(linI) = x.topRows(linI);
@@ -307,7 +313,7 @@ static std::string utc(Toks& t) {
             }
         }
         Ykeep = y;
-        return std::make_tuple(true, Data(std::move(y)), out);
+        return std::make_tuple(valid, Data(std::move(y)), out);
     };
     bool flag; GaussianMixture res; MatrixXd cross;
     std::tie(flag, res, cross) = sigma_point::unscented_transform(g, w, f);
@@ -492,9 +498,9 @@ static std::string ukfcs(Toks& t) {
         GaussianMixture inp = pred; if (variant == 1) inp.augmentWithNoise(R);
         MatrixXd X = sigma_point::sigma_point(inp, w.c);
         uc->correct(pred, corrU);
-        // After a failing model call the likelihood is not asked for: UKFCorrection keeps the previous step's
-        // innovations_ next to a predicted_meas_ overwritten by the failed transform (sizes disagree; see
-        // design-notes/C04.md, "found on the way") — outside C04, which speaks of successful steps only.
+        // After a failing model call the likelihood is not asked for: what getLikelihood() reports then is C12's
+        // subject (before fix 5117f2c it paired the previous step's innovations_ with a predicted_meas_ overwritten
+        // by the failed transform); C04 speaks of successful steps only.
         std::pair<bool, VectorXd> likU(false, VectorXd()), likK(false, VectorXd());
         if (fail == 0) likU = uc->getLikelihood();
         kc.correct(pred, corrK);
